@@ -405,6 +405,17 @@ func c06Exec(run *ev.Run, cs ev.Case) {
 			if !do(genCmd{Cmd: cmd, NetFn: 0, CmdNo: 0x02, Label: "chassiscontrol", Want: refcodec.Fields{"control": uint64(v)}}, fmt.Sprint(v)) {
 				return
 			}
+			// the same request through the session's ChassisControl method
+			if sess, ok := c.conn.(*bmc.V2Session); ok {
+				v := v
+				g := genCmd{Cmd: cmd, NetFn: 0, CmdNo: 0x02, Label: "chassiscontrol", Want: refcodec.Fields{"control": uint64(v)},
+					Call: func(ctx context.Context, _ bmc.Connection) (ipmi.CompletionCode, error) {
+						return 0, sess.ChassisControl(ctx, ipmi.ChassisControl(v))
+					}}
+				if !do(g, fmt.Sprint("method:", v)) {
+					return
+				}
+			}
 		}
 	case "sensorreading":
 		for n := 0; n < 256; n++ {
